@@ -16,6 +16,7 @@ import (
 	"github.com/taurusgroup/multi-party-sig/pkg/protocol"
 	"github.com/taurusgroup/multi-party-sig/protocols/cmp"
 	"github.com/taurusgroup/multi-party-sig/protocols/cmp/presign"
+	"github.com/taurusgroup/multi-party-sig/protocols/frost"
 	"github.com/taurusgroup/multi-party-sig/verif/adv"
 	"github.com/taurusgroup/multi-party-sig/verif/fx"
 	"github.com/taurusgroup/multi-party-sig/verif/ref"
@@ -56,8 +57,17 @@ func c04Cases(env vk.Env) []vk.Case {
 	}
 	for pos := 0; pos < env.Pick(2, 6); pos++ {
 		pos := pos
-		cs = append(cs, vk.Case{ID: fmt.Sprintf("low-degree/cmp-keygen/pos%d", pos), Run: func(t *vk.T) { c04LowDegree(t, "cmp-keygen", pos, 3+pos/3, 2) }})
-		cs = append(cs, vk.Case{ID: fmt.Sprintf("low-degree/cmp-refresh/pos%d", pos), Run: func(t *vk.T) { c04LowDegree(t, "cmp-refresh", pos, 3+pos/3, 2) }})
+		cs = append(cs, vk.Case{ID: fmt.Sprintf("low-degree/cmp-keygen/pos%d", pos), Run: func(t *vk.T) { c04Degree(t, "cmp-keygen", pos, 3+pos/3, 2, -1) }})
+		cs = append(cs, vk.Case{ID: fmt.Sprintf("low-degree/cmp-refresh/pos%d", pos), Run: func(t *vk.T) { c04Degree(t, "cmp-refresh", pos, 3+pos/3, 2, -1) }})
+		cs = append(cs, vk.Case{ID: fmt.Sprintf("high-degree/cmp-keygen/pos%d", pos), Run: func(t *vk.T) { c04Degree(t, "cmp-keygen", pos, 3+pos/3, 1, +1) }})
+	}
+	for pos := 0; pos < env.Pick(4, 12); pos++ {
+		pos := pos
+		for _, p := range []string{"frost-keygen", "taproot-keygen", "frost-refresh", "taproot-refresh"} {
+			p := p
+			cs = append(cs, vk.Case{ID: fmt.Sprintf("high-degree/%s/pos%d", p, pos), Run: func(t *vk.T) { c04Degree(t, p, pos, 3+pos%2, 1, +1) }})
+			cs = append(cs, vk.Case{ID: fmt.Sprintf("low-degree/%s/pos%d", p, pos), Run: func(t *vk.T) { c04Degree(t, p, pos, 3+pos%2, 2, -1) }})
+		}
 	}
 	for pos := 0; pos < env.Pick(2, 3); pos++ {
 		pos := pos
@@ -350,26 +360,49 @@ func c04Online(t *vk.T, pos, n int) {
 	t.Sample(map[string]any{"kind": "identifiable abort", "variant": "online", "deviation": "sigma share +1 (echo-consistent)", "cheater": string(C), "outcomes": fx.Describe(outs)})
 }
 
-// c04LowDegree: the cheater shares its secret with a polynomial of degree t-1 (otherwise fully consistent: valid
-// commitments, proofs and shares).  Whoever refuses must name the cheater, and nobody may name an honest party
-// or itself.  Abort notices are suppressed so that every honest party reaches its own verdict.
-func c04LowDegree(t *vk.T, proto string, pos, n, th int) {
+// degreeRun: the cheater shares its secret with a polynomial of degree t+delta (otherwise fully consistent: valid
+// commitments, proofs and shares).  Abort notices are suppressed so that every honest party reaches its own verdict.
+// Returns the outcomes, the cheater and whether the deviation was applied.
+func degreeRun(t *vk.T, proto string, pos, n, th, delta int) (outs []fx.Outcome, C party.ID, tag string, ok bool) {
 	r := t.Rng
-	fx.InstallPrimeHook()
-	fx.SetPrimeOffset(uint64(r.Intn(1000)))
 	ids := fx.IDs(r, r.Intn(3), n)
-	C := ids[pos%n]
+	C = ids[pos%n]
 	applied, infra := false, ""
 	var cm *fx.CMPMat
-	if proto == "cmp-refresh" {
-		cm = fx.NewCMPMatDealt(ids, th)
+	var fm *fx.FrostMat
+	var tm *fx.TaprootMat
+	var err error
+	switch proto {
+	case "cmp-keygen", "cmp-refresh":
+		fx.InstallPrimeHook()
+		fx.SetPrimeOffset(uint64(r.Intn(1000)))
+		if proto == "cmp-refresh" {
+			cm = fx.NewCMPMatDealt(ids, th)
+		}
+	case "frost-refresh":
+		fm, err = fx.NewFrostMat(r, ids, th, fx.Opt{})
+	case "taproot-refresh":
+		tm, err = fx.NewTaprootMat(r, ids, th, fx.Opt{})
+	}
+	if err != nil {
+		t.Inconclusive("keygen: %v", err)
+		return nil, C, "", false
 	}
 	start := func(id party.ID) protocol.StartFunc {
 		var sf protocol.StartFunc
-		if proto == "cmp-refresh" {
+		switch proto {
+		case "cmp-refresh":
 			sf = cmp.Refresh(fx.CloneCMP(cm.Cfgs[id]), nil)
-		} else {
+		case "cmp-keygen":
 			sf = cmp.Keygen(group, id, ids, th, nil)
+		case "frost-keygen":
+			sf = frost.Keygen(group, id, ids, th)
+		case "taproot-keygen":
+			sf = frost.KeygenTaproot(id, ids, th)
+		case "frost-refresh":
+			sf = frost.Refresh(fx.CloneFrost(fm.Cfgs[id]), ids)
+		case "taproot-refresh":
+			sf = frost.RefreshTaproot(fx.CloneTaproot(tm.Cfgs[id]), ids)
 		}
 		if id != C {
 			return sf
@@ -379,17 +412,28 @@ func c04LowDegree(t *vk.T, proto string, pos, n, th int) {
 			if err != nil || s == nil {
 				return s, err
 			}
-			fv, ok := fieldOf(reflect.ValueOf(s), "VSSSecret")
-			if !ok {
-				infra = "INFRASTRUCTURE: field VSSSecret not reachable in " + reflect.TypeOf(s).String()
+			if strings.HasPrefix(proto, "cmp-") {
+				fv, ok := fieldOf(reflect.ValueOf(s), "VSSSecret")
+				if !ok {
+					infra = "INFRASTRUCTURE: field VSSSecret not reachable in " + reflect.TypeOf(s).String()
+					return s, err
+				}
+				old, ok := fv.Interface().(*polynomial.Polynomial)
+				if !ok || old == nil {
+					infra = "INFRASTRUCTURE: VSSSecret is not a polynomial"
+					return s, err
+				}
+				fv.Set(reflect.ValueOf(polynomial.NewPolynomial(group, th+delta, old.Constant())))
+				applied = true
 				return s, err
 			}
-			old, ok := fv.Interface().(*polynomial.Polynomial)
-			if !ok || old == nil {
-				infra = "INFRASTRUCTURE: VSSSecret is not a polynomial"
+			// FROST samples its polynomial in the first Finalize from the round's threshold field
+			fv, uerr := fx.Unexported(reflect.ValueOf(s), "threshold")
+			if uerr != nil || fv.Kind() != reflect.Int {
+				infra = "INFRASTRUCTURE: field threshold not reachable in " + reflect.TypeOf(s).String()
 				return s, err
 			}
-			fv.Set(reflect.ValueOf(polynomial.NewPolynomial(group, th-1, old.Constant())))
+			fv.SetInt(int64(th + delta))
 			applied = true
 			return s, err
 		}
@@ -397,7 +441,7 @@ func c04LowDegree(t *vk.T, proto string, pos, n, th int) {
 	n2, _, err := fx.RunMulti(r, ids, start, fx.Opt{SessionID: r.Bytes(4), NoRun: true})
 	if err != nil {
 		t.Inconclusive("start: %v", err)
-		return
+		return nil, C, "", false
 	}
 	n2.Party(C).Corrupt = true
 	n2.OnDeliver = func(_ *sim.Net, d *sim.Delivery) []*sim.Delivery {
@@ -411,22 +455,35 @@ func c04LowDegree(t *vk.T, proto string, pos, n, th int) {
 		perr = fr + ": " + txt
 	}
 	t.Obs("evaluations", 1)
-	tag := fmt.Sprintf("%s n=%d t=%d cheater=%q (position %d) deviation=polynomial-of-degree-t-1", proto, n, th, C, pos%n)
+	tag = fmt.Sprintf("%s n=%d t=%d cheater=%q (position %d) deviation=polynomial-of-degree-t%+d", proto, n, th, C, pos%n, delta)
 	if infra != "" || !applied {
 		t.Inconclusive("%s: the deviation could not be applied %s", tag, infra)
-		return
+		return nil, C, tag, false
 	}
-	t.Distinct("low-degree|%s|pos=%d|n=%d|t=%d", proto, pos%n, n, th)
 	if perr != "" {
-		t.Violation("low-degree|"+proto+"|panic", "%s: a participant panicked: %s", tag, truncStr(perr, 200))
+		t.Violation("degree|"+proto+"|panic", "%s: a participant panicked: %s", tag, truncStr(perr, 200))
+		return nil, C, tag, false
+	}
+	return fx.Outcomes(n2), C, tag, true
+}
+
+// c04Degree judges the blame of a degree deviation: whoever refuses must name the cheater, and nobody may name an
+// honest party or itself.
+func c04Degree(t *vk.T, proto string, pos, n, th, delta int) {
+	outs, C, tag, ok := degreeRun(t, proto, pos, n, th, delta)
+	if !ok {
 		return
 	}
-	outs := fx.Outcomes(n2)
+	kind := "low-degree"
+	if delta > 0 {
+		kind = "high-degree"
+	}
+	t.Distinct("%s|%s|pos=%d|n=%d|t=%d", kind, proto, pos%n, n, th)
 	for _, o := range outs {
 		if o.ID == C {
 			continue
 		}
-		t.Obs("low_degree|honest_"+o.State, 1)
+		t.Obs(kind+"|honest_"+o.State, 1)
 		if o.State != "failed" {
 			continue
 		}
@@ -437,16 +494,34 @@ func c04LowDegree(t *vk.T, proto string, pos, n, th int) {
 		t.Obs("errors_with_culprit_lists_judged", 1)
 		for _, c := range pe.Culprits {
 			if c == o.ID {
-				t.Violation("low-degree|"+proto+"|honest-party-blames-itself", "%s: honest party %q ends with culprits %v (%s)", tag, o.ID, pe.Culprits, truncStr(pe.Err.Error(), 140))
+				t.Violation(kind+"|"+proto+"|honest-party-blames-itself", "%s: honest party %q ends with culprits %v (%s)", tag, o.ID, pe.Culprits, truncStr(pe.Err.Error(), 140))
 			} else if c != C {
-				t.Violation("low-degree|"+proto+"|honest-party-blamed", "%s: honest party %q names the honest party %q (%s)", tag, o.ID, c, truncStr(pe.Err.Error(), 140))
+				t.Violation(kind+"|"+proto+"|honest-party-blamed", "%s: honest party %q names the honest party %q (%s)", tag, o.ID, c, truncStr(pe.Err.Error(), 140))
 			}
 		}
 		if len(pe.Culprits) == 0 {
-			t.Violation("low-degree|"+proto+"|verification-failure-not-attributed", "%s: honest party %q refused (%s) without naming the sender", tag, o.ID, truncStr(pe.Err.Error(), 140))
+			t.Violation(kind+"|"+proto+"|verification-failure-not-attributed", "%s: honest party %q refused (%s) without naming the sender", tag, o.ID, truncStr(pe.Err.Error(), 140))
 		}
 	}
 	if pos == 0 {
-		t.Sample(map[string]any{"kind": "low-degree sharing polynomial", "protocol": proto, "cheater": string(C), "outcomes": fx.Describe(outs)})
+		t.Sample(map[string]any{"kind": kind + " sharing polynomial", "protocol": proto, "cheater": string(C), "outcomes": fx.Describe(outs)})
 	}
+}
+
+// c03Degree judges the results of a degree deviation: honest finishers must hold consistent key material.
+func c03Degree(t *vk.T, proto string, pos, n, th, delta int) {
+	outs, C, tag, ok := degreeRun(t, proto, pos, n, th, delta)
+	if !ok {
+		return
+	}
+	t.Distinct("degree%+d|%s|pos=%d|n=%d|t=%d", delta, proto, pos%n, n, th)
+	honest := honestOf(outs, C)
+	nDone := 0
+	for _, o := range honest {
+		if o.State == "done" {
+			nDone++
+		}
+	}
+	t.Obs(fmt.Sprintf("degree_deviation|honest_finishers=%d", nDone), 1)
+	keygenJudge(proto, nil)(t, honest, fmt.Sprintf("%s|wrong-result|polynomial-of-degree-t%+d", proto, delta), tag)
 }
